@@ -367,6 +367,35 @@ def run_label_sort(case, ctx):
                         ctx.violation(f'frame.sort_columns|{kind}', **info, got=gotc, expected=expc)
             except Exception as e:
                 ctx.violation(f'label_sort|raises|{type(e).__name__}|{kind}', **info, error=repr(e))
+        # hierarchical labels with a key function: a 2-D array whose columns are the depths in reverse (inner depth decides first), and a 1-D array of the
+        # inner depth only (ties between outer groups: stability and exact-reverse become observable)
+        if kind == 'ih' and n:
+            depth = len(labels[0])
+            for kf, fn, keyf in (('array2d-inner-first', lambda i: np.array([list(t)[::-1] for t in i], dtype=object), lambda t: tuple(t[::-1])),
+                                 ('array1d-inner-only', lambda i: np.array([t[1] for t in i]), lambda t: (t[1],))):
+                for asc in (True, False):
+                    ctx.transition(2)
+                    if n > 1:
+                        ctx.nontriv(('ls-key', kind, tuple(labels), kf, asc))
+                    order = ref_order([keyf(t) for t in labels], asc)
+                    # non-tree results cannot be represented by this version: expect a refusal there, data otherwise
+                    seen, tree = [], True
+                    for i_ in order:
+                        o = labels[i_][0]
+                        if seen and o != seen[-1] and o in seen:
+                            tree = False
+                        seen.append(o)
+                    try:
+                        rf = f.sort_index(ascending=asc, key=fn)
+                        got = [tuple(t) for t in rf.index]
+                        if got != [labels[i_] for i_ in order] or frame_rows(rf) != [frame_rows(f)[i_] for i_ in order]:
+                            ctx.violation(f'frame.sort_index|ih|key={kf}', labels=labels, ascending=asc, got=got, expected=[labels[i_] for i_ in order])
+                        rs = ix.sort(ascending=asc, key=fn)
+                        if [tuple(t) for t in rs] != [labels[i_] for i_ in order]:
+                            ctx.violation(f'ih.sort|key={kf}', labels=labels, ascending=asc, got=[tuple(t) for t in rs], expected=[labels[i_] for i_ in order])
+                    except Exception as e:
+                        if tree:
+                            ctx.violation(f'sort_index|ih|key={kf}|raises-{type(e).__name__}', labels=labels, ascending=asc, error=repr(e))
         # key function on labels returning an array / an index (flat only)
         if kind == 'flat' and n:
             for kf, fn in (('rev_array', lambda i: np.array([s[::-1] for s in i.values.tolist()])),
